@@ -372,7 +372,10 @@ fn calibrate() -> f64 {
 impl Property for QueryProp {
     fn id(&self) -> &'static str { self.id }
     fn max_len(&self) -> usize { 256 }
-    fn budget(&self) -> (u64, u64) { match self.aspect { QAspect::History => (1500, 40_000), QAspect::Timeout => (150, 2500) } }
+    // C23 thorough is bounded by memory, not time: the engine's node trees are reference cycles and a
+    // query that runs into the 1 s limit leaks tens of MB, so 2500 cases x 16 workers exceeded the
+    // machine's 62 GB (workers were OOM-killed: inconclusive). 600 cases stay near 2 GB per worker.
+    fn budget(&self) -> (u64, u64) { match self.aspect { QAspect::History => (1500, 40_000), QAspect::Timeout => (150, 600) } }
 
     fn check(&self, s: &mut dyn Src, rep: &mut Report) -> CaseResult {
         match self.aspect {
